@@ -120,3 +120,44 @@ fn c07_conv_lp() {
     kani::cover!(d1 < d2 && p.is_nan());
     kani::cover!(d1 < d2 && p >= 1.0);
 }
+
+// @unit class=complete tier=thorough mem=light timeout=900 fns=linfa_nn::distance::L2Dist::dist_to_rdist
+#[kani::proof]
+#[kani::stub(alloc::fmt::format, fmt_stub)]
+#[kani::stub(f32::powi, ghost_powi32)]
+fn c07_probe_l2_cadical() {
+    let m = L2Dist;
+    let (d1, d2): (f32, f32) = (kani::any(), kani::any());
+    kani::assume(d1.is_finite() && d2.is_finite() && d1 >= 0.0 && d2 >= 0.0);
+    let (r1, r2): (f32, f32) = (m.dist_to_rdist(d1), m.dist_to_rdist(d2));
+    if d1 < d2 { assert!(r1 <= r2); }
+    kani::cover!(d1 < d2 && r1 < r2);
+}
+
+// @unit class=complete tier=thorough mem=light timeout=900 fns=linfa_nn::distance::L2Dist::dist_to_rdist
+#[kani::proof]
+#[kani::solver(kissat)]
+#[kani::stub(alloc::fmt::format, fmt_stub)]
+#[kani::stub(f32::powi, ghost_powi32)]
+fn c07_probe_l2_kissat() {
+    let m = L2Dist;
+    let (d1, d2): (f32, f32) = (kani::any(), kani::any());
+    kani::assume(d1.is_finite() && d2.is_finite() && d1 >= 0.0 && d2 >= 0.0);
+    let (r1, r2): (f32, f32) = (m.dist_to_rdist(d1), m.dist_to_rdist(d2));
+    if d1 < d2 { assert!(r1 <= r2); }
+    kani::cover!(d1 < d2 && r1 < r2);
+}
+
+// @unit class=complete tier=thorough mem=light timeout=900 fns=linfa_nn::distance::L2Dist::dist_to_rdist
+#[kani::proof]
+#[kani::solver(minisat)]
+#[kani::stub(alloc::fmt::format, fmt_stub)]
+#[kani::stub(f32::powi, ghost_powi32)]
+fn c07_probe_l2_minisat() {
+    let m = L2Dist;
+    let (d1, d2): (f32, f32) = (kani::any(), kani::any());
+    kani::assume(d1.is_finite() && d2.is_finite() && d1 >= 0.0 && d2 >= 0.0);
+    let (r1, r2): (f32, f32) = (m.dist_to_rdist(d1), m.dist_to_rdist(d2));
+    if d1 < d2 { assert!(r1 <= r2); }
+    kani::cover!(d1 < d2 && r1 < r2);
+}
